@@ -98,8 +98,39 @@ fn main() {
         "C16" => run_model(vec![(skv_verif::engine_corrupt::c16(40), 160, 3200), (skv_verif::engine_corrupt::c16(600), 6, 240)], tier, replay),
         "C18" => run_model(vec![(skv_verif::fmt_bptree::c18(60, false), 4000, 60000), (skv_verif::fmt_bptree::c18(300, false), 300, 6000), (skv_verif::fmt_bptree::c18(60, true), 400, 6000)], tier, replay),
         "C01" => run_model(vec![(props::c01(), 20000, 400000)], tier, replay),
+        "C02" => {
+            use skv_verif::engine_crash::{crash_prop, Judge};
+            run_model(vec![(crash_prop("C02", Judge::Acked, 5, false), 60, 1500), (crash_prop("C02", Judge::Acked, 0, false), 8, 300), (crash_prop("C02", Judge::Acked, 5, true), 12, 300)], tier, replay)
+        }
+        "C03" => {
+            use skv_verif::engine_crash::{crash_prop, Judge};
+            run_model(vec![(crash_prop("C03", Judge::Prefix, 5, false), 60, 1500), (crash_prop("C03", Judge::Prefix, 0, false), 8, 300), (crash_prop("C03", Judge::Prefix, 5, true), 12, 300)], tier, replay)
+        }
         "C06" => run_model(vec![(props::c06(), 6000, 120000)], tier, replay),
-        "C07" => run_model(vec![(props::c07(false), 8000, 150000), (props::c07(true), 800, 15000)], tier, replay),
+        "C07" => {
+            use skv_verif::engine_crash::{crash_prop, Judge};
+            let findings = Findings::load();
+            let main = props::c07(false);
+            let crash = crash_prop("C07", Judge::Reopen, 7, false);
+            if let Some(p) = replay {
+                let text = std::fs::read_to_string(&p).unwrap_or_default();
+                if text.contains("\"work2\"") {
+                    std::process::exit(replay_one(&crash, &p, &findings));
+                }
+                std::process::exit(replay_one(&main, &p, &findings));
+            }
+            let seed = seed_from_env();
+            let t0 = Instant::now();
+            let mut rep = Report::default();
+            run_replays(&main, &findings, &mut rep);
+            run_replays(&crash, &findings, &mut rep);
+            if std::env::var("VERIF_ONLY_CRASH_STREAM").is_err() {
+                rep.merge(run_prop(&main, cases_for(tier, 8000, 150000), seed, 0, &findings));
+                rep.merge(run_prop(&props::c07(true), cases_for(tier, 800, 15000), seed, 1, &findings));
+            }
+            rep.merge(run_prop(&crash, cases_for(tier, 40, 1200), seed, 2, &findings));
+            finish(main.id, main.level, tier, seed, &main.rule, &main.assumptions, &rep, t0.elapsed().as_secs_f64(), &findings)
+        }
         "C08" => run_model(vec![(props::c08(), 40000, 800000)], tier, replay),
         "C09" => run_model(vec![(props::c09(), 30000, 600000)], tier, replay),
         "C10" => run_model(vec![(props::c10(false, true), 5000, 100000), (props::c10(true, false), 5000, 100000), (props::c10(true, true), 500, 10000)], tier, replay),
